@@ -1,22 +1,19 @@
 """findings_C09.py — trigger predicates of the open known findings of C09 (findings/C09.entries.json).
 
-A failing case is attributed to a finding only if
-  (i)   the failure is of the finding's kind (and, for a crash, of its exception class / message),
-  (ii)  the *case* has the triggering feature: the model (coq/Model/Place.v), run on the case, reports that the side
-        condition of the corresponding _partial theorem fails on the final state (letters L P M U V of `diag`), or
-        — for the fused-token finding — a data-block card of the five classes ends with a jump in the input,
-  (iii) the case passes the whole oracle once every diagnosed feature is neutralised (the class is printed in the
-        other block; shortcuts of the modifier cards are expanded in the input).
-Anything else stays a violation."""
-import json
+There is no open finding at the moment: the six defects this check found (LAT=None on the cell card, a new importance
+tree labelled with all of MODE, IMP:n=0.0 outside MODE, Cell() without universe with U in the data block, del
+cell.volume with VOL in the data block, a value fused with a trailing jump in a rewritten vector) were repaired in
+/repo (findings/C09.fixed.json); their replays are regression cases in corpus/C09/ and fail the check if a defect
+returns.
 
-KINDS = {
-    "L": ("value-mismatch",),
-    "P": ("datum-count", "write-raises"),
-    "M": ("spurious-datum",),
-    "U": ("write-raises",),
-    "V": ("write-raises",),
-}
+How a predicate for a new finding has to be built (kept from the time the findings were open):
+  (i)   the failure is of the finding's kind (and, for a crash, of its exception class / message),
+  (ii)  the *case* has the triggering feature: the model (coq/Model/Place.v), run on the case, reports that a side
+        condition of the _partial theorems fails on the final state (letters of `diag`: P partition condition,
+        M classifier outside MODE, C / F the two refusals), or a feature of the input text,
+  (iii) the case passes the whole oracle once the feature is neutralised (props.C09.neutralised: the class is printed
+        in the other block; shortcuts and trailing jumps of the modifier cards are expanded in the input).
+Anything else stays a violation."""
 
 
 def _core(case):
@@ -32,56 +29,3 @@ def _passes_neutralised(c, diag):
         return C09.check_case(C09.neutralised(c, diag)) is None
     except Exception:
         return False
-
-
-def _by_letter(case, letter, exc=None, msg=None):
-    import props.C09 as C09
-    c = _core(case)
-    if c is None or case.get("kind") not in KINDS[letter]:
-        return False
-    if case.get("kind") == "write-raises":
-        d = case.get("detail") or ["", ""]
-        if exc and d[0] != exc:
-            return False
-        if msg and msg not in str(d[1]):
-            return False
-    diag = C09.model_diag(c)
-    if letter not in diag:
-        return False
-    return _passes_neutralised(c, diag)
-
-
-def C09_lat_not_from_cell_card(case, params):
-    """LAT printed in the cell block although its value node is not the node of the cell's own tree"""
-    return _by_letter(case, "L")
-
-
-def C09_imp_tree_names_other_particles(case, params):
-    """an importance tree whose classifier names particles that do not share the tree (set on a linked cell)"""
-    return _by_letter(case, "P", exc="ValueError", msg="list.remove")
-
-
-def C09_imp_held_for_particle_outside_mode(case, params):
-    """the blank cell-level Importance keeps a neutron tree although MODE has no neutron"""
-    return _by_letter(case, "M")
-
-
-def C09_u_none_in_data_block(case, params):
-    return _by_letter(case, "U", exc="AttributeError", msg="'number'")
-
-
-def C09_volume_deleted_in_data_block(case, params):
-    return _by_letter(case, "V", exc="AttributeError", msg="'value'")
-
-
-def C09_vector_shortcut_garbled(case, params):
-    """a data-block card of the five classes that has shortcuts in the input (nJ nR nI nM, also a last token 'j')
-    is rewritten after its values changed (cells added / removed / reordered, values edited) with tokens that
-    are neither numbers nor shortcuts ('j10', '0RJ'): ListNode.update_with_new_values / ShortcutNode.format (C08)"""
-    import props.C09 as C09
-    c = _core(case)
-    if c is None or case.get("kind") not in ("vector-entry", "misaligned"):
-        return False
-    if C09.expand_modifier_shortcuts(c["text"]) == c["text"]:
-        return False
-    return _passes_neutralised(c, C09.model_diag(c))
